@@ -14,6 +14,8 @@
 #include <nop/types/optional.h>
 #include <nop/types/result.h>
 #include <nop/types/variant.h>
+#include <nop/utility/fd_reader.h>
+#include <nop/utility/fd_writer.h>
 
 #include "ops.h"
 
@@ -564,6 +566,9 @@ static void RunFileHandle(const Json& ops, JsonOut& o) {
   using UF = nop::UniqueFileHandle;
   int fds[kResources];
   int released[kResources];
+  // resource 0 is descriptor 0 itself (the lowest valid descriptor): standard input is parked and restored afterwards
+  const int saved_stdin = ::dup(0);
+  ::close(0);
   for (int i = 0; i < kResources; i++) { fds[i] = ::open("/dev/null", O_RDONLY); released[i] = 0; }
   auto res_of = [&](int fd) { for (int i = 0; i < kResources; i++) if (fds[i] == fd) return i; return fd < 0 ? -1 : -2; };
   alignas(UF) unsigned char storage[kSlots][sizeof(UF)];
@@ -621,6 +626,89 @@ static void RunFileHandle(const Json& ops, JsonOut& o) {
   o.kv_num("bad_close", 0);
   o.end_obj();
   for (int i = 0; i < kResources; i++) if (::fcntl(fds[i], F_GETFD) != -1) ::close(fds[i]);
+  if (saved_stdin >= 0) { ::dup2(saved_stdin, 0); ::close(saved_stdin); }
+}
+
+// FdReader / FdWriter own their descriptor like a UniqueHandle (move construction, move assignment, Clear(),
+// Release(), destruction); they offer no accessor, so what is observed is the descriptor table: which of the
+// descriptors handed out are closed, and - since a closed number is immediately re-occupied by a sentinel
+// descriptor of the harness - whether anybody closed a descriptor a second time ("stolen": a sentinel found closed).
+template <typename F>
+static void RunFdOwner(const Json& ops, JsonOut& o) {
+  int fds[kResources];
+  int released[kResources];
+  int closed[kResources];
+  int sentinel[kResources];
+  for (int i = 0; i < kResources; i++) { fds[i] = ::open("/dev/null", O_RDWR); released[i] = 0; closed[i] = 0; sentinel[i] = -1; }
+  alignas(F) unsigned char storage[kSlots][sizeof(F)];
+  F* slots[kSlots] = {nullptr, nullptr, nullptr};
+  int stolen = 0;
+  auto settle = [&]() {
+    for (int i = 0; i < kResources; i++) {
+      if (sentinel[i] >= 0 && ::fcntl(sentinel[i], F_GETFD) == -1) { stolen++; sentinel[i] = -2; }
+      if (sentinel[i] == -1 && !released[i] && ::fcntl(fds[i], F_GETFD) == -1) {
+        closed[i]++;
+        // take the freed number back at once: a second close of it would hit the sentinel
+        int got[64], n = 0, fd;
+        while (n < 64 && (fd = ::open("/dev/null", O_RDONLY)) >= 0 && fd != fds[i]) got[n++] = fd;
+        sentinel[i] = fd == fds[i] ? fd : -3;
+        for (int k = 0; k < n; k++) ::close(got[k]);
+      }
+    }
+  };
+  auto observe = [&](JsonOut& out) {
+    out.key("closed"); out.begin_arr(); for (int i = 0; i < kResources; i++) out.num(closed[i]); out.end_arr();
+    out.key("released"); out.begin_arr(); for (int i = 0; i < kResources; i++) out.num(released[i]); out.end_arr();
+    out.kv_num("stolen", stolen);
+  };
+  o.key("ops");
+  o.begin_arr();
+  for (auto& opj : ops.a) {
+    const std::string& op = opj.at("op").s;
+    const int s = static_cast<int>(opj.at("o").num(0));
+    const int p = static_cast<int>(opj.at("p").num(0));
+    const int r = static_cast<int>(opj.at("r").num(0));
+    bool bad = false;
+    int got = -9;
+    void* mem = storage[s];
+    if (op.compare(0, 4, "new_") == 0) {
+      if (slots[s]) bad = true;
+      else if (op == "new_empty") slots[s] = new (mem) F();
+      else if (op == "new_res") slots[s] = new (mem) F(fds[r]);
+      else if (op == "new_move") { if (!slots[p]) bad = true; else slots[s] = new (mem) F(std::move(*slots[p])); }
+      else bad = true;
+    } else if (!slots[s]) bad = true;
+    else if (op == "assign_move") { if (!slots[p]) bad = true; else *slots[s] = std::move(*slots[p]); }
+    else if (op == "release") {
+      int fd = slots[s]->Release();
+      got = -1;
+      for (int i = 0; i < kResources; i++) if (fd >= 0 && fds[i] == fd) got = i;
+      if (got >= 0) released[got]++;
+    }
+    else if (op == "close") slots[s]->Clear();
+    else if (op == "destroy") { slots[s]->~F(); slots[s] = nullptr; }
+    else bad = true;
+    settle();
+    o.begin_obj();
+    o.kv_str("op", op);
+    o.kv_num("o", s);
+    if (opj.has("p")) o.kv_num("p", p);
+    if (opj.has("r")) o.kv_num("r", r);
+    if (op == "release") o.kv_num("got", got);
+    if (bad) o.kv_bool("bad", true);
+    observe(o);
+    o.end_obj();
+  }
+  o.end_arr();
+  for (int s = 0; s < kSlots; s++) if (slots[s]) { slots[s]->~F(); settle(); }
+  o.key("end");
+  o.begin_obj();
+  observe(o);
+  o.end_obj();
+  for (int i = 0; i < kResources; i++) {
+    if (sentinel[i] >= 0) ::close(sentinel[i]);
+    else if (::fcntl(fds[i], F_GETFD) != -1) ::close(fds[i]);
+  }
 }
 
 static void CmdObj(const Json& cmd, JsonOut& o) {
@@ -636,6 +724,8 @@ static void CmdObj(const Json& cmd, JsonOut& o) {
   else if (m == "result_void") RunResultVoid(cmd.at("ops"), o);
   else if (m == "uhandle") RunHandle(cmd.at("ops"), o);
   else if (m == "ufile") RunFileHandle(cmd.at("ops"), o);
+  else if (m == "fdreader") RunFdOwner<nop::FdReader>(cmd.at("ops"), o);
+  else if (m == "fdwriter") RunFdOwner<nop::FdWriter>(cmd.at("ops"), o);
   else o.kv_bool("badmachine", true);
 }
 
